@@ -1020,10 +1020,10 @@ impl DNSPkt {
             | (if self.aa { 0b0000_0100 } else { 0b0 })
             | (if self.qr { 0b1000_0000 } else { 0b0 })
             | (self.opcode.0 << 3);
-        let flag2: u8 = (if self.cd { 0b0010_0000 } else { 0b0 })
-            |(if self.ad { 0b0100_0000 } else { 0b0 })
+        let flag2: u8 = (if self.cd { 0b0001_0000 } else { 0b0 })
+            |(if self.ad { 0b0010_0000 } else { 0b0 })
             |(if self.ra { 0b1000_0000 } else { 0b0 })
-            //             0b0001_0000
+            //             0b0100_0000
             |((self.rcode.0 & 0b0000_1111) as u8);
         let mut additional = self.additional.clone();
 
